@@ -1020,6 +1020,34 @@ func callBuiltin(caller *frame, callpos token.Pos, fn *ssa.Builtin, args []value
 		}
 		return nil
 
+	case "clear": // clear(map) / clear(slice)
+		switch m := args[0].(type) {
+		case map[value]value:
+			for k := range m {
+				delete(m, k)
+			}
+		case *hashmap:
+			if m != nil {
+				m.touch(true)
+				m.ents = nil
+			}
+		case []value:
+			var elemT types.Type
+			if sl, ok := fn.Type().(*types.Signature).Params().At(0).Type().Underlying().(*types.Slice); ok {
+				elemT = sl.Elem()
+			}
+			if elemT == nil {
+				panic(engineUnsupported{"clear of a slice of unknown element type"})
+			}
+			for i := range m {
+				m[i] = zero(elemT)
+			}
+		case nil:
+		default:
+			panic(engineUnsupported{fmt.Sprintf("clear of %T", m)})
+		}
+		return nil
+
 	case "print", "println": // print(any, ...)
 		ln := fn.Name() == "println"
 		var buf bytes.Buffer
